@@ -314,6 +314,9 @@ func c09Cut(c *fx.Ctx, cfg *configuration.Configuration, f codec.Format, family 
 		return
 	}
 	c.Add("partial_checked", 1)
+	if k%17 == 0 {
+		c.Sample(map[string]interface{}{"format": f.String(), "template": tname, "cut": k, "of": len(full), "document": showDoc(f, full), "partial": clipS(valueKey(partial))})
+	}
 }
 
 func treeStr(n *tnode) string {
